@@ -18,7 +18,7 @@ func init() {
 func init() {
 	props["C48"] = propSpec{
 		Engine: "crashsim", Level: "fault_enumeration",
-		QuickS: 40, ThoroughS: 900, DetSamples: 6, DetSamplesT: 40, Exhaustive: true, NeedsD2Bin: true,
+		QuickS: 40, ThoroughS: 900, DetSamples: 6, DetSamplesT: 40, Exhaustive: true, NeedsD2Bin: true, WatchdogS: 900,
 		Rule: "one run = one generated scenario (`d2 fmt` on 1-2 unformatted sources of 28 B - 300 KiB quick / 2 MiB thorough, corpus or generated, multi-byte runes; or a single-board `d2 in.d2 out.svg` with an existing short/long/empty/absent previous output, optionally in a not-yet-existing sub-directory, with --sketch/--theme variations). Per scenario the file-system operations of the uninterrupted command are recorded and EVERY one of them is a crash point (process killed just before it), plus 3 points inside every write (after 1, n/2, n-1 bytes) and one after the last operation: exhaustive per scenario. evaluations = crash-point executions; distinct = distinct (scenario, operation index, bytes written); a scenario is non-trivial when the command really rewrites the target.",
 		Assumptions: []string{
 			"'killed' = the process stops between two system calls or inside a write after k bytes; power loss / page-cache durability is not modelled (d2 issues no fsync and the property speaks of a killed process)",
@@ -96,7 +96,7 @@ var pipeRealStub = map[string]string{
 func init() {
 	props["C08"] = propSpec{
 		Engine: "pipesim", Level: "exploration",
-		QuickS: 45, ThoroughS: 900, DetSamples: 12, DetSamplesT: 100,
+		QuickS: 45, ThoroughS: 900, DetSamples: 12, DetSamplesT: 100, WatchdogS: 600,
 		Rule: "one run = one session: 1-3 task specs (scripts harvested from the repository's tests and data in index order plus random picks, or generated scripts with >=3 entries per collection; optional importable files), each executed 2-3 times as caller tasks whose stages the tape interleaves, optionally with font registrations in between, under a per-run map-order/select seam; every execution's canonical graph JSON or error list must equal every other execution of the same spec and a reference from a separate process under another seed. evaluations = executions + reference computations; distinct = distinct (spec, interleaving) pairs.",
 		Assumptions: []string{
 			"the simulator serialises execution: it decides dependence on map order, call order, interleaving at stage boundaries, process identity and history; it cannot observe a data race that needs two threads inside the same instructions (the compiler packages hold no synchronisation and no package-level state written after init)",
@@ -106,7 +106,7 @@ func init() {
 	}
 	props["C25"] = propSpec{
 		Engine: "pipesim", Level: "exploration",
-		QuickS: 90, ThoroughS: 1800, DetSamples: 4, DetSamplesT: 40,
+		QuickS: 90, ThoroughS: 1800, DetSamples: 4, DetSamplesT: 40, WatchdogS: 900,
 		Rule: "as C08 but through d2lib.Compile (dagre, ELK in ~10% of specs), d2exporter and d2svg.Render of every board, with sketch mode, theme, dark theme, pad and center drawn from the tape; the compared result is the SVG bytes of all boards. Scripts are limited to 2.5 KB quick / 20 KB thorough to bound layout time.",
 		Assumptions: []string{
 			"as C08; shared state that exists here (font registry under its mutex, goldmark instance, dagre plugin options) is exercised in every interleaving at stage granularity, not at instruction granularity",
